@@ -42,7 +42,7 @@ def plan(tier, seed):
 
 def mandatory(tier):
     out = [f"steps/{k}" for k in STEPS]
-    out += ["ac/True", "ac/False", "dtype/float32", "dtype/float64", "D/2", "D/3", "ExpFlow", "SVF", "SVFFD", "smooth", "batch>1"]
+    out += ["ac/True", "ac/False", "dtype/float32", "dtype/float64", "D/2", "D/3", "ExpFlow", "SVF", "SVF/steps=0", "SVFFD", "smooth", "batch>1"]
     return out
 
 
@@ -143,13 +143,16 @@ def run_item(ctx, item):
         from deepali.spatial import StationaryVelocityFieldTransform
 
         ctx.bucket("SVF")
-        k = int(rng.integers(1, 8))
+        k = int(rng.integers(0, 8))
+        ctx.bucket("SVF/steps=0" if k == 0 else "SVF/steps>0")
         grid = Grid(shape=shape, align_corners=ac)
         t = StationaryVelocityFieldTransform(grid, params=v.float(), steps=k)
         t.update()
         ref = np.stack([F.affine_field(F.exp_squaring(H, b, k), x) for H, b in gens])
         ctx.close("SVF_u_buffer_vs_matrix_power", t.u, ref, 2e-4, key="SVF/u", steps=k, **info)
         ctx.close("SVF_v_buffer_is_velocity", t.v, v_np, 1e-6 * (1 + np.abs(v_np).max()), key="SVF/v", **info)
+        ctx.close("SVF_tensor_and_disp_are_the_u_buffer", t.tensor(), ref, 2e-4, key="SVF/u", steps=k, **info)
+        ctx.close("SVF_disp_is_the_u_buffer", t.disp(), ref, 2e-4, key="SVF/u", steps=k, **info)
         ti = t.inverse(update_buffers=True)
         ti.update()
         ctx.close("SVF_inverse_u_equals_expv_negative", ti.u, expv(v.float(), scale=-1, steps=k, align_corners=ac), 1e-5, key="SVF/inverse", steps=k, **info)
@@ -165,7 +168,7 @@ def run_item(ctx, item):
             from deepali.spatial import StationaryVelocityFreeFormDeformation
 
             ctx.bucket("SVFFD")
-            k = int(rng.integers(1, 8))
+            k = int(rng.integers(0, 8))
             stride = int(rng.integers(1, 4))
             grid = Grid(shape=shape, align_corners=True)
             xg = F.norm_coords(shape, True)
